@@ -92,16 +92,37 @@ keeps the blanks). The model is a model of the repaired tree.
 
 ### 10.5 Seeded changes (`seeded/<id>/`: patch.diff, demo.py, meta.json) and the checks that catch them
 
-Round 1 (`-a`, `-b`) and round 2 (`-c`, `-d`): each written by an independent sub-agent that saw only the property text and a
+Round 1 (`-a`, `-b`), round 2 (`-c`, `-d`) and round 3 (`-e`, `-f`; the sub-agents were asked for changes in shared
+infrastructure that break the property indirectly and only for particular values, orders, nesting shapes, option combinations,
+repeated calls in one process or error paths): each written by an independent sub-agent that saw only the property text and a
 scratch worktree; each confirmed here (`harness/seedtest.py`: suite still passes with the change, the demo fails with it and
 passes without it) and then run through the property's quick check with `VERIF_REPO` pointing at the patched worktree.
-All 80 are caught by the quick check of their property. Round 2 was first MISSED in ten cases, and the checks were strengthened:
+All 120 are caught by the quick check of their property. Round 2 was first MISSED in ten cases, and the checks were strengthened:
 C01-c (special single characters for every modifier are now in the quick tier), C02-c (pairs of different arguments in one
 invocation, equal-valued ones included), C02-d (`$$`/`$$$` command names), C04-d (led to the fix e0c256b; the seeded change kept
 is a regression of that fix), C07-d (which definition is visible after a block), C09-c (verbatim regions with blank lines at file
 and group level), C11-c (trailing blanks in all spellings), C12-c (the same dotted name from two folders), C12-d (imports that
 override a function), C13-c (cycles that depend on history), C14-c (iteration bound moved by the body), C14-d (imports in a row
 consume no depth). C09-b (round 1) needed the fixed corpus of edge expressions.
+
+Round 3 was first MISSED in twenty-two of forty cases; what was learnt is general and was built into the generators rather than
+into one case each: (1) *identifier shapes* — names without a letter (`_`, `_1`), one-character names, mixed case, names that are
+prefixes of one another are now drawn by the structured-program generator everywhere (C06-e, C11-f: caches keyed on "no letter in
+the text"); (2) *re-evaluation* — the same expression text / the same source line is run again after its variables changed,
+between statements, across iterations and calls (C04-e, C02-e: result and validation caches); (3) *coming back to the same place* —
+histories that reuse the same folder, file paths and Compiler object with other file contents, another config.yaml, reassigned
+options (C12-f, C15-f, C17: process-wide and per-object caches); (4) *options at depth* — non-default options with imports at
+the second level, inside blocks and functions, and random option variation for every generated program whose meaning cannot
+depend on it (C12-e, C06-f); (5) *what stands between the arms of a chain* — loops, calls and imported files with chains of their
+own (C05-e, C05-f); (6) *siblings and next rounds* — what one block created is not there for the next block of the same parent,
+the next iteration, the next call (C08-f), and calls of functions whose defining block has ended are generated on purpose;
+(7) *document shapes* — groups owned by commands whose output is dropped, blank lines and quote lines inside verbatim groups
+(C03-e, C03-f, C16-f); (8) *code points and magnitudes* — single characters that are not stable under NFC/NFKC, other scripts'
+digits, astral characters; literals beyond 2^53 and 2^64 (C01-e, C01-f); (9) *the host stack* — runaway recursion and the deepest
+legal call chain at stack limits 150–200 must end in StackOverflowError / succeed (C09-e; the known finding D13 is now keyed on the
+one call site it is about, `tab_parse.parse_document`, so a RecursionError anywhere else is a new violation); loops of every kind in
+a row, finishing in every way, consume no depth (C14-f); (10) *functions across files* in cycle detection (C13-e, C13-f);
+(11) *every error class, at top level and nested, after prints* (C18-f); out-of-range values in configuration files (C19-e).
 
 | id | property | change | caught by |
 |---|---|---|---|
